@@ -40,6 +40,13 @@ Definition p_c08_add (cs : list (C08_check.add_in * C08_check.c08_out)) :=
   pj_from (fun o : C08_check.c08_out =>
              existsb (fun a => match a with C08_check.APanic => true | _ => false end) (fst o)) 0%N cs.
 Definition p_c08_sel (cs : list (C08_check.sel_in * C08_check.sel_out)) := pj_from res_bad 0%N cs.
+(* long-lived plugins on the REAL home-chain poller while the role map changes (C11's history parts): an Observation that
+   panics (e.g. on a peer that reads no chain any more — seeded change C13-7) is recorded as Panic by that harness *)
+Require Verif.Check.C11_check.
+Definition p_c11_cch (cs : list (C11_check.cch_in * C11_check.cc_out)) :=
+  pj_from (fun o : C11_check.cc_out => res_bad (fst o)) 0%N cs.
+Definition p_c11_ceh (cs : list (C11_check.ceh_in * C11_check.ce_out)) :=
+  pj_from (fun o : C11_check.ce_out => res_bad (fst o)) 0%N cs.
 
 (* ---- directed site classes (harness files c13s_test.go in commit, commit/merkleroot, commit/merkleroot/rmn, execute,
    execute/report, pkg/reader): the real (guard, use) pair of every site of Model/PanicSites2.v is driven with inputs
